@@ -1,5 +1,515 @@
+// Lane-specific scripts: open modes and header damage (C09), format-version gate (C10),
+// real processes creating ids under a seeded scheduler (C12), real SIGKILL cross-check (C11).
 #include "engine.hpp"
+#include <hdf5.h>
+#include <climits>
+#include <cstring>
+#include <csignal>
+#include <sstream>
+#include <unistd.h>
+#include <sys/wait.h>
+
+using namespace nix;
+
 namespace sim {
-bool lane_is_special(const std::string &lane) { (void) lane; return false; }
-int run_special(World &w, const Plan &p, const std::string &dir) { w.run(p, dir); return 0; }
+
+bool lane_is_special(const std::string &lane) { return lane == "ids" || lane == "xkill"; }
+
+// ------------------------------------------------------------------------------------------------
+// raw HDF5 helpers (stored-header damage happens "between sessions", outside nix)
+
+static bool h5_set_version(const std::string &path, int x, int y, int z) {
+    hid_t f = H5Fopen(path.c_str(), H5F_ACC_RDWR, H5P_DEFAULT);
+    if (f < 0) return false;
+    bool ok = false;
+    hid_t a = H5Aopen_by_name(f, "/", "version", H5P_DEFAULT, H5P_DEFAULT);
+    if (a >= 0) { int v[3] = {x, y, z}; ok = H5Awrite(a, H5T_NATIVE_INT, v) >= 0; H5Aclose(a); }
+    H5Fclose(f);
+    return ok;
 }
+static bool h5_del_attr(const std::string &path, const char *name) {
+    hid_t f = H5Fopen(path.c_str(), H5F_ACC_RDWR, H5P_DEFAULT);
+    if (f < 0) return false;
+    bool ok = H5Adelete_by_name(f, "/", name, H5P_DEFAULT) >= 0;
+    H5Fclose(f);
+    return ok;
+}
+static bool h5_set_format(const std::string &path, const char *value) {
+    hid_t f = H5Fopen(path.c_str(), H5F_ACC_RDWR, H5P_DEFAULT);
+    if (f < 0) return false;
+    H5Adelete_by_name(f, "/", "format", H5P_DEFAULT);
+    hid_t t = H5Tcopy(H5T_C_S1); H5Tset_size(t, H5T_VARIABLE); H5Tset_cset(t, H5T_CSET_UTF8);
+    hid_t s = H5Screate(H5S_SCALAR);
+    hid_t g = H5Gopen2(f, "/", H5P_DEFAULT);
+    hid_t a = H5Acreate2(g, "format", t, s, H5P_DEFAULT, H5P_DEFAULT);
+    bool ok = false;
+    if (a >= 0) { ok = H5Awrite(a, t, &value) >= 0; H5Aclose(a); }
+    H5Gclose(g); H5Sclose(s); H5Tclose(t); H5Fclose(f);
+    return ok;
+}
+static bool h5_plain_file(const std::string &path) {
+    hid_t f = H5Fcreate(path.c_str(), H5F_ACC_TRUNC, H5P_DEFAULT, H5P_DEFAULT);
+    if (f < 0) return false;
+    hid_t g = H5Gcreate2(f, "/data", H5P_DEFAULT, H5P_DEFAULT, H5P_DEFAULT);
+    if (g >= 0) H5Gclose(g);
+    g = H5Gcreate2(f, "/metadata", H5P_DEFAULT, H5P_DEFAULT, H5P_DEFAULT);
+    if (g >= 0) H5Gclose(g);
+    H5Fclose(f);
+    return true;
+}
+
+static bool try_open(const std::string &path, FileMode m, OpenFlags fl, std::string *err = nullptr, uint64_t *nb = nullptr, uint64_t *ns = nullptr) {
+    try {
+        File g = File::open(path, m, "hdf5", Compression::Auto, fl);
+        if (nb) *nb = g.blockCount();
+        if (ns) *ns = g.sectionCount();
+        std::string id = g.id();
+        g.close();
+        return true;
+    } catch (const std::exception &e) {
+        if (err) *err = e.what();
+        return false;
+    }
+}
+
+// ------------------------------------------------------------------------------------------------
+int exec_special_op(World &w, const Op &op) {
+    const int *a = op.a;
+    Rng r(op.sub);
+    switch (op.kind) {
+    case OP_mode_probe: {
+        if (!w.is_open) return 2;
+        // work on copies; the main file is closed for the duration and reopened afterwards
+        int was_mode = w.mode;
+        Node before = w.last;
+        w.close_file(false, 0);
+        if (w.failed()) return 0;
+        std::string bytes0; disk_read_all(w.path, bytes0);
+        std::string cp = w.dir + "/probe" + std::to_string(++w.file_gen) + ".nix";
+        int scen = ((unsigned) a[0]) % 12;
+        static const char *names[] = {"ro-absent", "rw-absent", "overwrite-absent", "overwrite-existing", "format-missing", "format-wrong", "version-missing", "id-missing", "plain-hdf5", "text-file", "empty-file", "rw-existing"};
+        w.arg_class = names[scen];
+        w.cnt.inc(std::string("header.") + names[scen]);
+        std::string err;
+        uint64_t nb = 99, ns = 99;
+        disk_remove(cp);
+        if (scen == 0) {
+            if (try_open(cp, FileMode::ReadOnly, OpenFlags::None)) w.fail("C09.refuse", "ReadOnly open of a non-existent path returned a usable File");
+            else if (disk_exists(cp)) w.fail("C09.refuse", "ReadOnly open of a non-existent path created the file");
+        } else if (scen == 1 || scen == 2) {
+            FileMode m = scen == 1 ? FileMode::ReadWrite : FileMode::Overwrite;
+            if (!try_open(cp, m, OpenFlags::None, &err, &nb, &ns)) w.fail(scen == 1 ? "C09.rw-preserves" : "C09.overwrite-empties", "opening a non-existent path failed: " + err);
+            else if (nb || ns) w.fail("C09.overwrite-empties", "a newly created file is not empty");
+            else if (!try_open(cp, FileMode::ReadOnly, OpenFlags::None, &err)) w.fail("C09.overwrite-empties", "a newly created file cannot be reopened ReadOnly: " + err);
+        } else if (scen == 3) {
+            disk_copy(w.path, cp);
+            if (!try_open(cp, FileMode::Overwrite, OpenFlags::None, &err, &nb, &ns)) w.fail("C09.overwrite-empties", "Overwrite of an existing file failed: " + err);
+            else if (nb || ns) w.fail("C09.overwrite-empties", "Overwrite left " + std::to_string(nb) + " blocks / " + std::to_string(ns) + " sections");
+            else if (!try_open(cp, FileMode::ReadWrite, OpenFlags::None, &err, &nb, &ns) || nb || ns) w.fail("C09.overwrite-empties", "file produced by Overwrite is not a valid empty file on reopen: " + err);
+        } else if (scen == 11) {
+            disk_copy(w.path, cp);
+            try {
+                File g = File::open(cp, FileMode::ReadWrite);
+                ObsOpts o; Node d = observe(g, o, nullptr, &w.getters);
+                g.close();
+                std::string where;
+                if (!node_equal(before, d, where)) w.fail("C09.rw-preserves", "ReadWrite open of an existing file does not show the prior content at " + where);
+            } catch (const std::exception &e) { w.fail("C09.rw-preserves", std::string("ReadWrite open of an existing file failed: ") + e.what()); }
+        } else {
+            bool made = false;
+            if (scen >= 4 && scen <= 7) {
+                disk_copy(w.path, cp);
+                made = scen == 4 ? h5_del_attr(cp, "format") : scen == 5 ? h5_set_format(cp, "xin") : scen == 6 ? h5_del_attr(cp, "version") : h5_del_attr(cp, "id");
+            } else if (scen == 8) made = h5_plain_file(cp);
+            else if (scen == 9) made = disk_write_all(cp, "this is not an HDF5 file\n" + std::string(2000, 'x'));
+            else made = disk_write_all(cp, "");
+            if (!made) { w.cnt.inc("header.damage_failed"); }
+            else {
+                std::string b0; disk_read_all(cp, b0);
+                uint64_t w0 = disk_write_calls(cp);
+                if (try_open(cp, FileMode::ReadOnly, OpenFlags::None)) w.fail("C09.refuse", "ReadOnly open of a file with a defective header returned a usable File");
+                else {
+                    std::string b1; disk_read_all(cp, b1);
+                    if (b1 != b0 || disk_write_calls(cp) != w0) w.fail("C09.ro-no-write", "a refused ReadOnly open changed the file");
+                    else if (try_open(cp, FileMode::ReadWrite, OpenFlags::None)) w.fail("C09.refuse", "ReadWrite open of a file with a defective header returned a usable File");
+                    else if (r.chance(1, 2)) {
+                        if (!try_open(cp, FileMode::Overwrite, OpenFlags::None, &err, &nb, &ns)) w.fail("C09.overwrite-empties", "Overwrite of a defective file failed: " + err);
+                        else if (nb || ns) w.fail("C09.overwrite-empties", "Overwrite of a defective file left content");
+                        else if (!try_open(cp, FileMode::ReadOnly, OpenFlags::None, &err)) w.fail("C09.overwrite-empties", "file produced by Overwrite cannot be reopened: " + err);
+                    }
+                }
+            }
+        }
+        disk_remove(cp);
+        if (w.failed()) return 0;
+        std::string bytes1; disk_read_all(w.path, bytes1);
+        if (bytes1 != bytes0) { w.fail("C09.ro-no-write", "harness: main file changed during a probe"); return 0; }
+        if (!w.open_file(was_mode, false)) { w.fail("C02.restart-equal", "reopening after a probe failed"); return 0; }
+        return 0;
+    }
+    case OP_ro_catalogue: {
+        if (!w.is_open) return 2;
+        Node before = w.last;
+        w.close_file(false, 0);
+        if (w.failed()) return 0;
+        if (!w.open_file(1, false)) { w.fail("C09.rw-preserves", "ReadOnly open of a closed file failed"); return 0; }
+        Node d0 = w.obs();
+        if (w.failed()) return 0;
+        std::string where;
+        if (!node_equal(before, d0, where)) { w.fail("C02.restart-equal", "ReadOnly reopen differs at " + where); return 0; }
+        w.last = d0;
+        int n = 4 + (int) (((unsigned) a[0]) % 12);
+        std::vector<int> kinds;
+        for (int k = 0; k < OP_COUNT; k++) {
+            if (!op_modifies(k)) continue;
+            const char *nm = op_name(k);
+            if (!strncmp(nm, "abuse_", 6) || k == OP_use_stale || k == OP_drop) continue;
+            kinds.push_back(k);
+        }
+        int saved_cur = w.cur;
+        for (int i = 0; i < n && !w.failed(); i++) {
+            Op m; m.kind = kinds[r.below(kinds.size())];
+            for (int &x : m.a) x = (int) r.below(1000);
+            m.a[5] = 2 + (int) r.below(1000);
+            m.sub = r.next() >> 1;
+            m.s = std::string("ro") + std::to_string(r.below(4));
+            // --- twin: the same call on a ReadWrite copy tells whether it would change anything
+            std::string twin = w.dir + "/twin" + std::to_string(++w.file_gen) + ".nix";
+            disk_copy(w.path, twin);
+            auto s_arr = w.arr; auto s_dims = w.dims; auto s_prop = w.prop; auto s_frame = w.frame;
+            File ro = w.f; std::string ro_path = w.path; std::string ac;
+            bool twin_changed = false; int rc_tw = 2;
+            try {
+                w.f = File::open(twin, FileMode::ReadWrite); w.path = twin; w.mode = 0;
+                ObsOpts o; Node t0 = observe(w.f, o, nullptr, &w.getters);
+                w.del_victim.clear(); w.del_handles.clear();
+                try { rc_tw = w.exec(m); } catch (const std::exception &) { rc_tw = 1; }
+                w.del_handles.clear();
+                Node t1 = observe(w.f, o, nullptr, &w.getters);
+                std::string wh; twin_changed = !node_equal(t0, t1, wh);
+                w.f.close();
+            } catch (const std::exception &) { rc_tw = 2; }
+            ac = w.arg_class;
+            w.f = ro; w.path = ro_path; w.mode = 1;
+            w.arr = s_arr; w.dims = s_dims; w.prop = s_prop; w.frame = s_frame;
+            disk_remove(twin);
+            if (w.failed()) { w.viol = Violation(); }   // model oracles that fired on the twin are not this op's business
+            // --- the real thing on the ReadOnly file
+            int rc;
+            w.del_victim.clear(); w.del_handles.clear();
+            try { rc = w.exec(m); } catch (const std::exception &) { rc = 1; }
+            w.del_handles.clear(); w.del_victim.clear();
+            w.arr = s_arr; w.dims = s_dims; w.prop = s_prop; w.frame = s_frame;
+            if (w.failed()) { w.viol = Violation(); }
+            w.arg_class = std::string(op_name(m.kind)) + "," + ac;
+            w.cnt.inc(std::string("ro.mutator.") + op_name(m.kind) + (rc == 1 ? ".threw" : rc == 0 ? ".returned" : ".skipped"));
+            if (twin_changed) w.cnt.inc("ro.mutators_effective_in_rw");
+            Node d1 = w.obs();
+            if (w.failed()) return 0;
+            if (!node_equal(w.last, d1, where)) { w.fail("C09.ro-mutator-throws", std::string(op_name(m.kind)) + " changed the observable state of a ReadOnly file at " + where); break; }
+            if (twin_changed && rc_tw == 0 && rc != 1) {
+                w.fail("C09.ro-mutator-throws", std::string(op_name(m.kind)) + " (" + ac + ") modifies the file in ReadWrite mode but returned normally instead of throwing on the ReadOnly file");
+                break;
+            }
+        }
+        w.cur = saved_cur;
+        if (w.failed()) return 0;
+        w.cnt.inc("ro.catalogue_sessions");
+        // end of the read-only session: bytes, write-class syscalls and open flags are checked in close_file
+        w.close_file(false, 0);
+        if (w.failed()) return 0;
+        if (!w.open_file(0, false)) { w.fail("C09.rw-preserves", "ReadWrite reopen after a ReadOnly session failed"); return 0; }
+        Node d2 = w.obs();
+        if (w.failed()) return 0;
+        if (!node_equal(before, d2, where)) { w.fail("C09.rw-preserves", "content after a ReadOnly session differs at " + where); return 0; }
+        w.last = d2;
+        return 0;
+    }
+    case OP_version_cube: {
+        if (!w.is_open) return 2;
+        int was_mode = w.mode;
+        std::vector<int> lib = w.f.version();
+        w.close_file(false, 0);
+        if (w.failed()) return 0;
+        std::string cp = w.dir + "/ver" + std::to_string(++w.file_gen) + ".nix";
+        disk_copy(w.path, cp);
+        std::vector<int> xs, ys, zs;
+        auto axis = [](int c) { std::vector<int> v; for (int d = -2; d <= 2; d++) if (c + d >= 0) v.push_back(c + d); v.push_back(INT_MAX); if (c + 2 < 9) v.push_back(9); return v; };
+        xs = axis(lib[0]); ys = axis(lib[1]); zs = axis(lib[2]);
+        uint64_t opens = 0, cases = 0;
+        for (int x : xs) for (int y : ys) for (int z : zs) {
+            if (w.failed()) break;
+            if (!h5_set_version(cp, x, y, z)) { w.fail("C10.gate", "harness: could not rewrite the stored version"); break; }
+            cases++;
+            bool can_read = x == lib[0] && y <= lib[1];
+            bool can_write = x == lib[0] && y == lib[1] && z == lib[2];
+            for (int mode = 0; mode < 2 && !w.failed(); mode++) for (int force = 0; force < 2 && !w.failed(); force++) {
+                bool expect = force ? true : (mode == 0 ? can_read : can_write);
+                std::string err;
+                bool got = try_open(cp, mode == 0 ? FileMode::ReadOnly : FileMode::ReadWrite, force ? OpenFlags::Force : OpenFlags::None, &err);
+                opens++;
+                if (got != expect) {
+                    w.arg_class = std::string(mode == 0 ? "ReadOnly" : "ReadWrite") + (force ? ",Force" : "") + (expect ? ",refused-but-must-open" : ",opened-but-must-refuse");
+                    w.fail("C10.gate", "file version (" + std::to_string(x) + "," + std::to_string(y) + "," + std::to_string(z) + ") library (" + std::to_string(lib[0]) + "," + std::to_string(lib[1]) + "," + std::to_string(lib[2]) + ") mode " + (mode == 0 ? "ReadOnly" : "ReadWrite") + (force ? " Force" : "") + ": " + (got ? "opened" : "refused (" + err + ")") + ", expected " + (expect ? "open" : "refusal"));
+                }
+            }
+        }
+        w.cnt.inc("version.triples", cases); w.cnt.inc("version.opens", opens);
+        // ordering laws over all pairs of the cube (pure; enumerated alongside)
+        if (!w.failed()) {
+            std::vector<std::vector<int> > all;
+            for (int x : xs) for (int y : ys) for (int z : zs) all.push_back({x, y, z});
+            uint64_t pairs = 0;
+            for (auto &p : all) for (auto &q : all) {
+                FormatVersion A(p), B(q);
+                int cmp = p < q ? -1 : (q < p ? 1 : 0);   // std::vector compares lexicographically
+                pairs++;
+                bool ok = (A < B) == (cmp < 0) && (A > B) == (cmp > 0) && (A <= B) == (cmp <= 0) && (A >= B) == (cmp >= 0) && (A == B) == (cmp == 0) && (A != B) == (cmp != 0);
+                if (!ok) { w.arg_class = "order-laws"; w.fail("C10.order-laws", "comparison operators disagree with lexicographic order for (" + std::to_string(p[0]) + "," + std::to_string(p[1]) + "," + std::to_string(p[2]) + ") vs (" + std::to_string(q[0]) + "," + std::to_string(q[1]) + "," + std::to_string(q[2]) + ")"); break; }
+            }
+            w.cnt.inc("version.order_pairs", pairs);
+        }
+        disk_remove(cp);
+        if (w.failed()) return 0;
+        if (!w.open_file(was_mode, false)) { w.fail("C02.restart-equal", "reopening after the version cube failed"); return 0; }
+        return 0;
+    }
+    default: return 2;
+    }
+}
+
+// ------------------------------------------------------------------------------------------------
+// real processes (ids lane, xkill lane)
+
+struct Child { pid_t pid; int to, from; bool alive; std::string file; bool shared; };
+
+static bool write_all(int fd, const std::string &s) {
+    size_t off = 0;
+    while (off < s.size()) { ssize_t n = write(fd, s.data() + off, s.size() - off); if (n < 0 && errno == EINTR) continue; if (n <= 0) return false; off += (size_t) n; }
+    return true;
+}
+static bool read_line(int fd, std::string &line) {
+    line.clear();
+    char c;
+    for (;;) { ssize_t n = read(fd, &c, 1); if (n < 0 && errno == EINTR) continue; if (n <= 0) return false; if (c == '\n') return true; line += c; }
+}
+
+static void list_ids(const File &f, const std::string &full, std::ostringstream &o) {
+    std::string tag = full.substr(full.rfind('/') + 1);   // the directory name contains a pid and must not enter the event hash
+    ObsOpts opt; opt.read_data = false;
+    uint64_t g = 0;
+    Node d = observe(f, opt, nullptr, &g);
+    std::vector<std::pair<std::string, std::string> > recs;
+    collect_records(d, "", recs);
+    o << " " << tag << "|/|" << d.field("id");
+    for (auto &p : recs) {
+        std::string path = p.first;
+        for (auto &ch : path) if (ch == ' ' || ch == '\n') ch = '_';
+        o << " " << tag << "|" << path << "|" << p.second;
+    }
+}
+
+// child main loop: commands "<clock> <action> <arg> <sub>"; replies one line
+static void child_loop(int from_parent, int to_parent, const std::string &dir, int index, uint64_t entropy) {
+    entropy_seed(entropy);
+    File f; std::string cur; int burst = 0;
+    std::string line;
+    while (read_line(from_parent, line)) {
+        std::istringstream in(line);
+        long long clk; int action, arg; uint64_t sub;
+        in >> clk >> action >> arg >> sub;
+        clock_set(clk);
+        std::ostringstream out;
+        try {
+            switch (action) {
+            case 0: { if (f) { f.close(); } cur = dir + "/p" + std::to_string(index) + "_" + std::to_string(arg % 2) + ".nix"; f = File::open(cur, FileMode::Overwrite); out << "ok"; list_ids(f, cur, out); break; }
+            case 1: { if (f) { f.close(); } cur = dir + "/shared.nix"; f = File::open(cur, FileMode::ReadWrite); out << "ok"; list_ids(f, cur, out); break; }
+            case 2: { if (f) { f.close(); f = nix::none; } out << "ok"; break; }
+            case 3: {
+                if (!f) { out << "skip"; break; }
+                Rng r(sub);
+                std::string sfx = "_p" + std::to_string(index) + "_" + std::to_string(burst++);
+                Block b = f.blockCount() && r.chance(1, 2) ? f.getBlock(r.below(f.blockCount())) : f.createBlock("b" + sfx, "t");
+                int n = r.range(1, 5);
+                for (int i = 0; i < n; i++) {
+                    std::string nm = "e" + sfx + "_" + std::to_string(i);
+                    switch (r.range(0, 8)) {
+                        case 0: b.createDataArray(nm, "t", DataType::Double, NDSize({2})); break;
+                        case 1: { Tag t = b.createTag(nm, "t", {1.0}); if (b.dataArrayCount()) t.createFeature(b.getDataArray((ndsize_t) 0), LinkType::Tagged); break; }
+                        case 2: b.createGroup(nm, "t"); break;
+                        case 3: b.createSource(nm, "t").createSource("child", "t"); break;
+                        case 4: { Section s = f.createSection(nm, "t"); s.createProperty("p", Variant(1.0)); s.createSection("sub", "t"); break; }
+                        case 5: { if (b.dataArrayCount()) b.createMultiTag(nm, "t", b.getDataArray((ndsize_t) 0)); break; }
+                        case 6: { std::vector<Column> cols(1); cols[0].name = "c"; cols[0].unit = ""; cols[0].dtype = DataType::Double; b.createDataFrame(nm, "t", cols); break; }
+                        case 7: { if (f.sectionCount()) f.getSection((ndsize_t) 0).createProperty("q" + sfx + std::to_string(i), DataType::Int32); break; }
+                        default: f.createBlock("bb" + nm, "t"); break;
+                    }
+                }
+                out << "ok"; list_ids(f, cur, out);
+                break;
+            }
+            case 4: { if (!f) { out << "skip"; break; } out << "ok"; list_ids(f, cur, out); break; }
+            case 5: { if (!f) { out << "skip"; break; } f.forceId(); out << "ok"; list_ids(f, cur, out); break; }
+            case 6: { if (!f) { out << "skip"; break; } bool ok = f.flush(); out << (ok ? "flushed" : "flushfail"); list_ids(f, cur, out); break; }
+            case 7: { raise(SIGKILL); break; }
+            case 8: { // reader: open the named file read-only and list it
+                cur = dir + (arg == 99 ? "/shared.nix" : "/p" + std::to_string(arg / 2) + "_" + std::to_string(arg % 2) + ".nix");
+                File g = File::open(cur, FileMode::ReadOnly); out << "ok"; list_ids(g, cur, out); g.close(); break; }
+            default: out << "skip";
+            }
+        } catch (const std::exception &e) {
+            std::string m = e.what(); for (auto &c : m) if (c == ' ' || c == '\n') c = '_';
+            out.str(""); out << "threw " << m;
+        }
+        out << "\n";
+        if (!write_all(to_parent, out.str())) break;
+    }
+    _exit(0);
+}
+
+int run_special(World &w, const Plan &p, const std::string &dir) {
+    w.plan = p; w.dir = dir;
+    const Swarm &s = p.swarm;
+    clock_enable(true); clock_set(s.t0);
+    h5knob_set(s.cache_mode, s.sieve_mode);
+    std::vector<Child> kids;
+    uint64_t ent = s.entropy;
+    auto spawn = [&](int index) {
+        int a[2], b[2];
+        if (pipe(a) || pipe(b)) return false;
+        uint64_t e = splitmix64(ent);     // distinct entropy per simulated process
+        pid_t pid = fork();
+        if (pid == 0) {
+            close(a[1]); close(b[0]);
+            for (auto &k : kids) { close(k.to); close(k.from); }
+            child_loop(a[0], b[1], dir, index, e);
+            _exit(0);
+        }
+        close(a[0]); close(b[1]);
+        Child c; c.pid = pid; c.to = a[1]; c.from = b[0]; c.alive = true; c.shared = false;
+        if ((size_t) index < kids.size()) kids[(size_t) index] = c; else kids.push_back(c);
+        w.cnt.inc("xproc.processes");
+        return true;
+    };
+    int P = 2 + (int) (s.entropy % 3);
+    for (int i = 0; i < P; i++) spawn(i);
+    std::map<std::string, std::string> first;           // file|path -> id
+    std::map<std::string, std::string> owner;           // id -> file|path
+    std::map<std::string, std::vector<std::string> > listing;   // file -> last listing (for the kill cross-check)
+    std::vector<int64_t> clk((size_t) P, s.t0);
+    int shared_holder = -1;
+    Hash sched;
+    auto absorb = [&](const std::string &reply, const std::string &who) {
+        std::istringstream in(reply);
+        std::string st; in >> st;
+        std::string tok; std::string file; std::vector<std::string> ids;
+        std::set<std::string> present;
+        while (in >> tok) {
+            size_t p1 = tok.find('|'), p2 = tok.rfind('|');
+            if (p1 == std::string::npos || p2 == p1) continue;
+            file = tok.substr(0, p1);
+            std::string key = tok.substr(0, p2), id = tok.substr(p2 + 1);
+            ids.push_back(tok);
+            present.insert(key);
+            if (!wellformed_uuid(id)) { w.fail("C12.wellformed", "id '" + id + "' of " + key + " is not a well-formed UUID"); return; }
+            auto it = first.find(key);
+            if (it != first.end()) {
+                if (it->second != id && !(w.arg_class == "forceId" && key.size() > 2 && key.compare(key.size() - 2, 2, "|/") == 0)) { w.fail("C12.stable", "entity " + key + " changed id from " + it->second + " to " + id + " (seen by " + who + ")"); return; }
+                if (it->second != id) { owner.erase(it->second); it->second = id; if (owner.count(id)) { w.fail("C12.unique", "forceId produced an id already in use"); return; } owner[id] = key; w.cnt.inc("ids.new"); }
+            } else {
+                auto o = owner.find(id);
+                if (o != owner.end()) { w.fail("C12.unique", "id " + id + " was given to " + key + " (" + who + ") but already belongs to " + o->second); return; }
+                first[key] = id; owner[id] = key;
+                w.cnt.inc("ids.new");
+            }
+        }
+        if (!file.empty()) {
+            // entities that disappeared from this file are forgotten (Overwrite re-creates files)
+            for (auto it = first.begin(); it != first.end();) {
+                if (it->first.compare(0, file.size() + 1, file + "|") == 0 && !present.count(it->first)) { it = first.erase(it); } else ++it;
+            }
+            listing[file] = ids;
+        }
+    };
+    for (size_t i = 0; i < p.ops.size() && !w.failed(); i++) {
+        const Op &op = p.ops[i];
+        w.cur = (int) i;
+        progress((int) i, op.kind);
+        w.evh.str(op_to_line(op));
+        if (op.kind != OP_xp) continue;
+        int k = (int) (((unsigned) op.a[0]) % (unsigned) P);
+        int action = ((unsigned) op.a[1]) % 10;
+        // clocks: mostly the same second for everybody; sometimes skewed or far apart
+        static const int64_t dj[] = {0, 0, 0, 0, 0, 1, 1, 3600, -1, -86400, 86400 * 365};
+        int64_t d = dj[((unsigned) op.a[2]) % 11];
+        clk[(size_t) k] += d;
+        if (d == 0) w.cnt.inc("clock.same_second"); else if (d > 0) w.cnt.inc("clock.forward"); else w.cnt.inc("clock.backward");
+        bool same_second = false;
+        for (int j = 0; j < P; j++) if (j != k && clk[(size_t) j] == clk[(size_t) k]) same_second = true;
+        if (same_second) w.cnt.inc("xproc.steps_in_a_second_shared_with_another_process");
+        Child &c = kids[(size_t) k];
+        std::string who = "process " + std::to_string(k);
+        w.arg_class = action == 5 ? "forceId" : "";
+        if (s.lane == "ids" && (action == 6 || action == 7 || action == 8)) action = 3;
+        if (action == 9) action = 3;
+        if (action == 1) { if (shared_holder >= 0 && shared_holder != k) action = 3; else { shared_holder = k; c.shared = true; } }
+        if ((action == 0 || action == 2) && c.shared) { c.shared = false; if (shared_holder == k) shared_holder = -1; }
+        sched.u64((uint64_t) k); sched.u64((uint64_t) clk[(size_t) k]); sched.u64((uint64_t) action);
+        if (action == 0) {
+            // Overwrite makes a new file: whatever was known about the old one at that path is forgotten (its ids stay reserved)
+            std::string fn = "p" + std::to_string(k) + "_" + std::to_string((op.a[3] % 100) % 2) + ".nix|";
+            for (auto it = first.begin(); it != first.end();) { if (it->first.compare(0, fn.size(), fn) == 0) it = first.erase(it); else ++it; }
+        }
+        std::ostringstream cmd;
+        cmd << clk[(size_t) k] << " " << action << " " << (op.a[3] % 100) << " " << op.sub << "\n";
+        if (action == 7) {
+            // real SIGKILL of a writer; allowed only right after a successful flush with nothing modified since
+            continue;
+        }
+        if (!write_all(c.to, cmd.str())) { w.fail("C16.crash", who + " is gone"); break; }
+        std::string reply;
+        if (!read_line(c.from, reply)) {
+            int st = 0; waitpid(c.pid, &st, 0);
+            w.fail("C16.crash", who + " died executing action " + std::to_string(action) + (WIFSIGNALED(st) ? " (signal " + std::to_string(WTERMSIG(st)) + ")" : " (exit " + std::to_string(WEXITSTATUS(st)) + ")"));
+            break;
+        }
+        w.evh.str(reply);
+        w.cnt.inc("xproc.steps");
+        w.cnt.inc(std::string("op.xp.") + (reply.compare(0, 5, "threw") == 0 ? "threw" : reply.compare(0, 4, "skip") == 0 ? "skipped" : "ok"));
+        absorb(reply, who);
+        if (w.failed()) break;
+        if (s.lane == "xkill" && reply.compare(0, 7, "flushed") == 0 && (op.a[4] % 2) == 0) {
+            // --- C11 cross-check with a real SIGKILL: kill the writer now, let a fresh process read the file
+            std::string file = c.shared ? std::string("shared.nix") : "";
+            std::vector<std::string> want;
+            std::istringstream in(reply); std::string st, tok; in >> st;
+            while (in >> tok) { want.push_back(tok); if (file.empty()) file = tok.substr(0, tok.find('|')); }
+            kill(c.pid, SIGKILL);
+            int stt = 0; waitpid(c.pid, &stt, 0);
+            close(c.to); close(c.from);
+            w.cnt.inc("kill.real_sigkill");
+            if (c.shared) { c.shared = false; if (shared_holder == k) shared_holder = -1; }
+            spawn(k);
+            Child &rdr = kids[(size_t) k];
+            std::ostringstream rc;
+            int arg = 99;
+            if (file.find("shared.nix") == std::string::npos && file.size() > 3) { int pi = atoi(file.c_str() + 1); size_t us = file.find('_'); int which = atoi(file.c_str() + us + 1); arg = pi * 2 + which; }
+            rc << clk[(size_t) k] + 5 << " 8 " << arg << " 0\n";
+            write_all(rdr.to, rc.str());
+            std::string rr;
+            if (!read_line(rdr.from, rr)) { w.fail("C11.image-complete", "reader process died opening the file left by a killed writer"); break; }
+            w.evh.str(rr);
+            if (rr.compare(0, 2, "ok") != 0) { w.arg_class = "real-sigkill"; w.fail("C11.image-complete", "file left by a writer killed (SIGKILL) right after flush()==true cannot be opened by another process: " + rr.substr(0, 200)); break; }
+            std::vector<std::string> got; std::istringstream in2(rr); in2 >> st; while (in2 >> tok) got.push_back(tok);
+            w.cnt.inc("kill.checked");
+            if (got != want) { w.arg_class = "real-sigkill"; w.fail("C11.image-complete", "file left by a writer killed (SIGKILL) right after flush()==true lists " + std::to_string(got.size()) + " entities, the writer listed " + std::to_string(want.size()) + " at flush"); break; }
+        }
+    }
+    for (auto &c : kids) { close(c.to); close(c.from); }
+    for (auto &c : kids) { int st; waitpid(c.pid, &st, 0); }
+    w.state_hashes.insert(sched.h);
+    w.cnt.inc("sim_seconds", 1);
+    return 0;
+}
+
+} // namespace sim
